@@ -66,7 +66,7 @@ def call_kind(call):
         return "dispatch/" + ("accepted" if r["accepted"] else "duplicate" if r["ok"] else r["err"])
     if k == "start":
         if r["ok"]:
-            return "start/" + r["status"]["done"]
+            return "start/" + call["s"]["st"]["done"]
         return "start/" + r["err"] + ("/zero_limit" if op["some"] and op["n"] == 0 and r["err"] == "INVALID_CONTROL" else
                                       "/already_active" if r["err"] == "INVALID_CONTROL" else "")
     if k == "elig":
